@@ -20,7 +20,10 @@
    Go slice expressions are transcribed with Slice2/Slice3; a slice expression
    that would panic makes the operation Undefined (the action is disabled: the
    contract forbids the call).  Variant = "go" is the code as written; the other
-   variants exist only to show that the invariants can fail (sensitivity). *)
+   variants ("twoindex": View.CapLength without the third index, "sharelist":
+   Clone returning the receiver's list, "boundary": `>` for `>=` in the CapLength
+   loop, so a cap that lands exactly on the end of a chunk leaves that chunk's
+   capacity alone) exist only to show that the invariants can fail. *)
 EXTENDS BufferP
 CONSTANTS Variant, ScratchCap, MaxObj
 VARIABLES mem, lmem, obj, nextb
@@ -36,6 +39,9 @@ HLen(h) == h.hi - h.lo
 HCap(h) == h.cap - h.lo
 Bytes(h)  == SubSeq(mem[h.a], h.lo + 1, h.hi)
 Beyond(h) == {mem[h.a][k] : k \in (h.hi + 1)..h.cap}     \* what h[:cap(h)] adds to h
+
+ExtSeq(h) == [k \in 1..(h.cap - h.hi) |-> mem[h.a][h.hi + k]]
+PhysView(h) == [b |-> Bytes(h), ext |-> ExtSeq(h)]
 
 \* h[i:j] and h[i:j:k]; Go panics unless 0 <= i <= j <= k <= cap(h)
 SliceDef(h, i, j, k) == 0 <= i /\ i <= j /\ j <= k /\ k <= HCap(h)
@@ -86,7 +92,7 @@ RECURSIVE CapLoop(_, _, _, _)
 CapLoop(s, i, end, length) ==
     IF i >= end THEN s                                                   \* range exhausted
     ELSE LET v == s.cells[i + 1] IN
-         IF HLen(v) >= length
+         IF (IF Variant = "boundary" THEN HLen(v) > length ELSE HLen(v) >= length)   \* if len(*v) >= length
          THEN IF length = 0
               THEN [s EXCEPT !.hi = i]                                   \* vv.views = vv.views[:i]
               ELSE [s EXCEPT !.cells[i + 1] = ViewCap(v, length),        \* v.CapLength(length)
@@ -103,6 +109,11 @@ FlatVV(o)  == Cat(lmem[obj[o].a], obj[o].lo + 1, obj[o].hi)
 FirstHdr(o) == IF obj[o].hi - obj[o].lo = 0 THEN NilHdr ELSE lmem[obj[o].a][obj[o].lo + 1]
 Zeros(n) == [k \in 1..n |-> 0]
 
+\* the object as the API shows it: its views, each with content and spare bytes
+PhysOf(o) == IF obj[o].kind = "vv"
+             THEN [i \in 1..(obj[o].hi - obj[o].lo) |-> PhysView(lmem[obj[o].a][obj[o].lo + i])]
+             ELSE <<PhysView(HdrOf(o))>>
+
 VTrim(o, n) == /\ IsO(o, "vv") /\ n <= obj[o].n + 1
                /\ CommitVV(o, TrimS(VVS(o), n))
                /\ UNCHANGED <<mem, nextb>>
@@ -110,7 +121,7 @@ VTrim(o, n) == /\ IsO(o, "vv") /\ n <= obj[o].n + 1
 VCap(o, n)  == /\ IsO(o, "vv") /\ n <= obj[o].n + 1
                /\ CommitVV(o, CapS(VVS(o), n))
                /\ UNCHANGED <<mem, nextb>>
-               /\ PCap(o, n)
+               /\ PCap(o, n, PhysOf(o))
 VRemoveFirst(o) == /\ IsO(o, "vv")
                    /\ CommitVV(o, RemoveFirstS(VVS(o)))
                    /\ UNCHANGED <<mem, nextb>>
@@ -157,7 +168,7 @@ WTrim(o, n) == /\ IsO(o, "view") /\ ViewTrimDef(HdrOf(o), n)
 WCap(o, n)  == /\ IsO(o, "view") /\ ViewCapDef(HdrOf(o), n)
                /\ LET h == ViewCap(HdrOf(o), n) IN obj' = [obj EXCEPT ![o].lo = h.lo, ![o].hi = h.hi, ![o].cap = h.cap]
                /\ UNCHANGED <<mem, lmem, nextb>>
-               /\ PWCap(o, n)
+               /\ PWCap(o, n, PhysOf(o))
 \* func (v View) ToVectorisedView(): NewVectorisedView(len(v), []View{v})
 WToVV(o) == /\ IsO(o, "view") /\ Room
             /\ lmem' = Append(lmem, <<HdrOf(o)>>)
@@ -194,21 +205,39 @@ PView(o) == /\ IsO(o, "prep") /\ Room
 RECURSIVE SumTo(_, _)
 SumTo(s, i) == IF i = 0 THEN 0 ELSE s[i] + SumTo(s, i - 1)
 SumSeq(s) == SumTo(s, Len(s))
-\* a VectorisedView over Len(lens) chunks, each chunk its own array of exactly lens[i] bytes
-NewVV(lens) ==
+\* A VectorisedView over Len(lens) chunks of fresh content bytes.
+\* sl = 0: every chunk is its own array of exactly lens[i] bytes (cap = len).
+\* sl > 0: the chunks are carved out of ONE backing array, chunk i followed by sl spare
+\*         bytes of its own (distinct non-zero values): view i = arr[off : off+len : off+len+sl],
+\*         so every chunk has capacity beyond its length, and no chunk's capacity reaches
+\*         into another chunk's bytes.
+RECURSIVE Carve(_, _, _, _)
+Carve(lens, i, sl, L) ==        \* the backing array from chunk i on
+    IF i > Len(lens) THEN <<>>
+    ELSE [j \in 1..lens[i] |-> nextb + SumTo(lens, i - 1) + j]
+         \o [j \in 1..sl |-> nextb + L + (i - 1) * sl + j]
+         \o Carve(lens, i + 1, sl, L)
+Off(lens, i, sl) == SumTo(lens, i - 1) + (i - 1) * sl
+NewVV(lens, sl) ==
     /\ Len(obj) = 0
+    /\ sl > 0 => Len(lens) > 0
     /\ LET k == Len(lens)  L == SumSeq(lens) IN
-         /\ mem' = mem \o [i \in 1..k |-> [j \in 1..lens[i] |-> nextb + SumTo(lens, i - 1) + j]]
+         /\ mem' = IF sl = 0 THEN mem \o [i \in 1..k |-> [j \in 1..lens[i] |-> nextb + SumTo(lens, i - 1) + j]]
+                             ELSE Append(mem, Carve(lens, 1, sl, L))
          /\ IF k = 0 THEN UNCHANGED lmem /\ AddObj(OObj("vv", NilList, 0, 0, 0, 0))
-            ELSE /\ lmem' = Append(lmem, [i \in 1..k |-> Hdr(Len(mem) + i, 0, lens[i], lens[i])])
+            ELSE /\ lmem' = Append(lmem, [i \in 1..k |->
+                                IF sl = 0 THEN Hdr(Len(mem) + i, 0, lens[i], lens[i])
+                                ELSE Hdr(Len(mem) + 1, Off(lens, i, sl), Off(lens, i, sl) + lens[i], Off(lens, i, sl) + lens[i] + sl)])
                  /\ AddObj(OObj("vv", Len(lmem) + 1, 0, k, k, L))
-         /\ nextb' = nextb + L
+         /\ nextb' = nextb + L + k * sl
          /\ PNew("vv", [j \in 1..L |-> nextb + j], 0)
-\* func NewView(size int), filled by the caller: a View over its own array of exactly n bytes
-NewView(n) == /\ Len(obj) = 0
-              /\ mem' = Append(mem, [j \in 1..n |-> nextb + j])
-              /\ AddObj(OObj("view", Len(mem) + 1, 0, n, n, 0))
-              /\ nextb' = nextb + n
+\* func NewView(size int), filled by the caller: a View of n bytes over its own array of
+\* n + sl bytes (NewView(n+sl)[:n]: sl spare bytes of capacity)
+NewView(n, sl) ==
+              /\ Len(obj) = 0
+              /\ mem' = Append(mem, [j \in 1..(n + sl) |-> nextb + j])
+              /\ AddObj(OObj("view", Len(mem) + 1, 0, n, n + sl, 0))
+              /\ nextb' = nextb + n + sl
               /\ UNCHANGED lmem
               /\ PNew("view", [j \in 1..n |-> nextb + j], 0)
 \* func NewPrependable(size int)
